@@ -173,6 +173,10 @@ func (l *listener4) HandleMsg4(buf []byte, oob *ipv4.ControlMessage, _peer net.A
 			}
 		}
 
+		if useEthernet && woob == nil {
+			// No interface to send the layer 2 frame on (already logged above)
+			return
+		}
 		if useEthernet {
 			intf, err := net.InterfaceByIndex(woob.IfIndex)
 			if err != nil {
